@@ -127,9 +127,13 @@ def check_conversion(db, rep):
 def check_inverse(db, rep):
     unit = db.unit('SUNalg')
     fM = basis.f_matrix_ctor(db)
-    fC = basis.f_components_from_matrices(db)
+    try:
+        fC = basis.f_components_from_matrices(db)
+    except basis.HelperAbsent:
+        fC = None  # judged through the matrix constructor only (noted below)
     rep.fn(fM['name'] + '(const gsl_matrix_complex*)')
-    rep.fn(fC['name'])
+    if fC is not None:
+        rep.fn(fC['name'])
     n = 0
     for d in DIMS:
         try:
@@ -171,7 +175,7 @@ def check_inverse(db, rep):
                 else:
                     bad += 1
                     rep.fail('A.conv.inverse', '%s/%d/slot%d' % (site, d, k), where,
-                             'M_d(S_d(c))[%d] = c%d' % (k, k), str(got), fM['name'] if runner == 'ctor' else fC['name'])
+                             'M_d(S_d(c))[%d] = c%d' % (k, k), str(got), fM['name'] if (runner == 'ctor' or fC is None) else fC['name'])
             if not bad:
                 rep.sample('A.conv.inverse', '%s d=%d: M_d(S_d(c)) = c for all %d slots' % (site, d, d * d))
             # --- S o M = id on Hermitian matrices: feed a general Hermitian H
@@ -207,8 +211,8 @@ def check_inverse(db, rep):
                         bad2 += 1
                         rep.fail('A.conv.inverse', '%s/%d/entry(%d,%d)' % (site, d, r, c), where,
                                  'S_d(M_d(H))(%d,%d) = H(%d,%d)' % (r, c, r, c), '%s + i(%s)' % (gre, gim),
-                                 fM['name'] if runner == 'ctor' else fC['name'])
-    rep.floor('A.conv.inverse', n, 10)
+                                 fM['name'] if (runner == 'ctor' or fC is None) else fC['name'])
+    rep.floor('A.conv.inverse', n, 10 if fC is not None else 5)  # without the file-local helper only the constructor is a site
 
 
 def check_component_roundtrip(db, rep):
